@@ -1,14 +1,418 @@
-//! Direct oracles: the property itself evaluated on the implementation's outputs.
+//! Direct oracles: the property itself evaluated on the implementation's outputs, written
+//! from the property text (not from the crate's code).  They are the search for a failing
+//! input; the theorems are what establishes the property.
+use crate::ops2::{msg_toks, parse_owned, short_res};
 use crate::wire::*;
 use dlt_core::dlt::*;
-use dlt_core::filtering::DltFilterConfig;
+use dlt_core::filtering::{DltFilterConfig, ProcessedDltFilterConfig};
 use dlt_core::parse::*;
+use std::panic::{catch_unwind, AssertUnwindSafe};
 
 pub type Fails = Vec<(String, String)>;
 
-pub fn parse_oracle(_prop: &str, _sh: bool, _f: &Option<DltFilterConfig>, _bs: &[u8], _o: &mut Fails) {}
-pub fn consume_oracle(_prop: &str, _bs: &[u8], _o: &mut Fails) {}
-pub fn construct_oracle(_e: Endianness, _tys: &[TypeInfo], _data: &[u8], _r: &Result<Vec<Argument>, DltParseError>, _o: &mut Fails) {}
-pub fn new_oracle(_c: &MessageConfig, _sh: &Option<StorageHeader>, _ts: &Option<DltTimeStamp>, _res: &Option<Message>, _o: &mut Fails) {}
-#[allow(dead_code)]
-fn _unused(_: &[Tok]) {}
+pub fn find_pattern(bs: &[u8]) -> Option<usize> {
+    (0..bs.len().saturating_sub(3)).find(|&i| bs[i..i + 4] == [0x44, 0x4c, 0x54, 0x01])
+}
+
+/// where the message starts and ends according to its own length field
+/// returns (skip, hdr, L, all_headers_len) if the length field is present
+pub fn located(sh: bool, bs: &[u8]) -> Option<(usize, usize, usize, usize)> {
+    let (skip, hdr) = if sh { (find_pattern(bs)?, 16) } else { (0, 0) };
+    let o = skip + hdr;
+    if bs.len() < o + 4 {
+        return None;
+    }
+    let htyp = bs[o];
+    let l = ((bs[o + 2] as usize) << 8) | bs[o + 3] as usize;
+    let mut hl = 4;
+    for bit in [2u8, 3, 4] {
+        if htyp & (1 << bit) != 0 {
+            hl += 4;
+        }
+    }
+    if htyp & 1 != 0 {
+        hl += 10;
+    }
+    Some((skip, hdr, l, hl))
+}
+
+/// C04 on dlt_message
+pub fn parse_oracle(prop: &str, sh: bool, f: &Option<DltFilterConfig>, bs: &[u8], o: &mut Fails) {
+    if prop != "C04" {
+        return;
+    }
+    let pf: Option<ProcessedDltFilterConfig> = f.as_ref().map(|c| c.into());
+    let res = catch_unwind(AssertUnwindSafe(|| {
+        dlt_message(bs, pf.as_ref(), sh).map(|(rest, pm)| (rest.len(), rest.as_ptr() as usize, pm))
+    }));
+    let base = bs.as_ptr() as usize;
+    if let Ok(Ok((rest_len, rest_ptr, pm))) = &res {
+        let consumed = bs.len() - rest_len;
+        if *rest_len > 0 && *rest_ptr != base + consumed {
+            o.push(("rest_is_suffix".into(), "rest is not the tail of the input".into()));
+        }
+        if consumed == 0 {
+            o.push(("strict_progress".into(), "Ok with nothing consumed".into()));
+        }
+        match located(sh, bs) {
+            Some((skip, hdr, l, hl)) => {
+                if consumed != skip + hdr + l {
+                    o.push((
+                        "consumes_declared".into(),
+                        format!("consumed {} but message ends at {} (skip {} + storage {} + LEN {})", consumed, skip + hdr + l, skip, hdr, l),
+                    ));
+                }
+                if let ParsedMessage::FilteredOut(n) = pm {
+                    if l < hl || *n != l - hl {
+                        o.push(("filtered_payload_len".into(), format!("FilteredOut({}) but LEN {} - headers {}", n, l, hl)));
+                    }
+                }
+                if let ParsedMessage::Invalid = pm {
+                    o.push(("never_invalid".into(), "ParsedMessage::Invalid returned".into()));
+                }
+            }
+            None => o.push(("consumes_declared".into(), "Ok although the length field is not in the buffer".into())),
+        }
+        // the presence of a filter never changes where the next message is looked for
+        if pf.is_some() {
+            if let Some(Ok((rl2, _))) = parse_owned(bs, None, sh) {
+                if rl2 != *rest_len {
+                    o.push(("filter_independent_rest".into(), format!("rest {} with filter, {} without", rest_len, rl2)));
+                }
+            }
+        }
+    }
+}
+
+/// C04 on dlt_consume_msg
+pub fn consume_oracle(prop: &str, bs: &[u8], o: &mut Fails) {
+    if prop != "C04" {
+        return;
+    }
+    let res = catch_unwind(AssertUnwindSafe(|| dlt_consume_msg(bs).map(|(rest, c)| (rest.len(), rest.as_ptr() as usize, c))));
+    if let Ok(Ok((rest_len, rest_ptr, Some(c)))) = res {
+        let consumed = bs.len() - rest_len;
+        if rest_len > 0 && rest_ptr != bs.as_ptr() as usize + consumed {
+            o.push(("rest_is_suffix".into(), "rest is not the tail of the input".into()));
+        }
+        if bs.len() >= 20 {
+            let l = ((bs[18] as usize) << 8) | bs[19] as usize;
+            if c as usize != 16 + l || consumed != 16 + l {
+                o.push(("skipper_consumes_declared".into(), format!("reported {} consumed {} but 16 + LEN = {}", c, consumed, 16 + l)));
+            }
+        } else {
+            o.push(("skipper_consumes_declared".into(), "skipped a message without a length field".into()));
+        }
+        if consumed == 0 {
+            o.push(("strict_progress".into(), "skipper consumed nothing".into()));
+        }
+    }
+}
+
+// ------------------------------------------------------------------ C13
+fn rd_uint(e: Endianness, b: &[u8]) -> u128 {
+    let mut v: u128 = 0;
+    match e {
+        Endianness::Big => {
+            for x in b {
+                v = (v << 8) | *x as u128;
+            }
+        }
+        Endianness::Little => {
+            for x in b.iter().rev() {
+                v = (v << 8) | *x as u128;
+            }
+        }
+    }
+    v
+}
+fn sext(v: u128, bytes: usize) -> i128 {
+    if bytes == 16 {
+        v as i128
+    } else {
+        let sh = 128 - 8 * bytes as u32;
+        ((v << sh) as i128) >> sh
+    }
+}
+
+/// independent packed-field decoder for the supported (non fixed-point) signal types
+pub fn spec_construct(e: Endianness, tys: &[TypeInfo], data: &[u8]) -> Option<Result<Vec<Value>, ()>> {
+    let mut off = 0usize;
+    let mut out = vec![];
+    for t in tys {
+        let take = |off: &mut usize, n: usize| -> Option<&[u8]> {
+            if data.len() < *off + n {
+                None
+            } else {
+                let s = &data[*off..*off + n];
+                *off += n;
+                Some(s)
+            }
+        };
+        let v = match t.kind {
+            TypeInfoKind::Bool => match take(&mut off, 1) {
+                Some(b) => Value::Bool(b[0]),
+                None => return Some(Err(())),
+            },
+            TypeInfoKind::Signed(l) => {
+                let n = l as usize / 8;
+                match take(&mut off, n) {
+                    Some(b) => {
+                        let v = sext(rd_uint(e, b), n);
+                        match l {
+                            TypeLength::BitLength8 => Value::I8(v as i8),
+                            TypeLength::BitLength16 => Value::I16(v as i16),
+                            TypeLength::BitLength32 => Value::I32(v as i32),
+                            TypeLength::BitLength64 => Value::I64(v as i64),
+                            TypeLength::BitLength128 => Value::I128(v),
+                        }
+                    }
+                    None => return Some(Err(())),
+                }
+            }
+            TypeInfoKind::Unsigned(l) => {
+                let n = l as usize / 8;
+                match take(&mut off, n) {
+                    Some(b) => {
+                        let v = rd_uint(e, b);
+                        match l {
+                            TypeLength::BitLength8 => Value::U8(v as u8),
+                            TypeLength::BitLength16 => Value::U16(v as u16),
+                            TypeLength::BitLength32 => Value::U32(v as u32),
+                            TypeLength::BitLength64 => Value::U64(v as u64),
+                            TypeLength::BitLength128 => Value::U128(v),
+                        }
+                    }
+                    None => return Some(Err(())),
+                }
+            }
+            TypeInfoKind::Float(w) => {
+                let n = w as usize / 8;
+                match take(&mut off, n) {
+                    Some(b) => match w {
+                        FloatWidth::Width32 => Value::F32(f32::from_bits(rd_uint(e, b) as u32)),
+                        FloatWidth::Width64 => Value::F64(f64::from_bits(rd_uint(e, b) as u64)),
+                    },
+                    None => return Some(Err(())),
+                }
+            }
+            TypeInfoKind::StringType | TypeInfoKind::Raw => {
+                let n = match take(&mut off, 2) {
+                    Some(b) => rd_uint(e, b) as usize,
+                    None => return Some(Err(())),
+                };
+                match take(&mut off, n) {
+                    Some(b) => {
+                        if t.kind == TypeInfoKind::StringType {
+                            match std::str::from_utf8(b) {
+                                Ok(s) => Value::StringVal(s.to_string()),
+                                Err(_) => return Some(Err(())),
+                            }
+                        } else {
+                            Value::Raw(b.to_vec())
+                        }
+                    }
+                    None => return Some(Err(())),
+                }
+            }
+            // fixed-point signal types are outside the property's list of supported types
+            TypeInfoKind::SignedFixedPoint(_) | TypeInfoKind::UnsignedFixedPoint(_) => return None,
+        };
+        out.push(v);
+    }
+    Some(Ok(out))
+}
+
+fn value_toks(v: &Value) -> Vec<Tok> {
+    let mut w = W::new();
+    w.value(v);
+    w.0
+}
+
+pub fn construct_oracle(e: Endianness, tys: &[TypeInfo], data: &[u8], r: &Result<Vec<Argument>, DltParseError>, o: &mut Fails) {
+    match (spec_construct(e, tys, data), r) {
+        (None, _) => {}
+        (Some(Ok(vals)), Ok(args)) => {
+            if args.len() != tys.len() {
+                o.push(("one_per_type".into(), format!("{} arguments for {} types", args.len(), tys.len())));
+                return;
+            }
+            for (i, a) in args.iter().enumerate() {
+                if value_toks(&a.value) != value_toks(&vals[i]) {
+                    o.push(("decoded_value".into(), format!("argument {}: {:?} expected {:?}", i, a.value, vals[i])));
+                }
+                let mut w1 = W::new();
+                w1.ti(&a.type_info);
+                let mut w2 = W::new();
+                w2.ti(&tys[i]);
+                if w1.0 != w2.0 || a.name.is_some() || a.unit.is_some() || a.fixed_point.is_some() {
+                    o.push(("carries_type".into(), format!("argument {} does not carry its signal type plainly", i)));
+                }
+            }
+        }
+        (Some(Err(())), Err(_)) => {}
+        (Some(Ok(_)), Err(e)) => o.push(("accepts_exact_payload".into(), format!("refused a sufficient payload: {:?}", e))),
+        (Some(Err(())), Ok(_)) => o.push(("refuses_short_or_bad_utf8".into(), "accepted a payload that is too short or not UTF-8".into())),
+    }
+}
+
+// ------------------------------------------------------------------ C15
+pub fn new_oracle(c: &MessageConfig, sh: &Option<StorageHeader>, ts: &Option<DltTimeStamp>, res: &Option<Message>, o: &mut Fails) {
+    let m = match res {
+        Some(m) => m,
+        None => {
+            o.push(("no_panic".into(), "Message::new / add_storage_header panicked".into()));
+            return;
+        }
+    };
+    let plen = crate::genmsg::spec_payload_len(&c.payload);
+    if m.header.payload_length as usize != plen {
+        o.push(("payload_length".into(), format!("payload_length {} but the payload serialises to {} bytes", m.header.payload_length, plen)));
+    }
+    let bytes = match catch_unwind(AssertUnwindSafe(|| (m.as_bytes(), m.byte_len()))) {
+        Ok(x) => x,
+        Err(_) => {
+            o.push(("no_panic".into(), "as_bytes/byte_len panicked on a built message".into()));
+            return;
+        }
+    };
+    let storage = m.storage_header.is_some();
+    let wo = bytes.0.len() - if storage { 16 } else { 0 };
+    if bytes.1 as usize != wo {
+        o.push(("byte_len".into(), format!("byte_len {} but serialisation without storage header has {} bytes", bytes.1, wo)));
+    }
+    if let Some(x) = &m.extended_header {
+        let (want_verbose, want_noar) = match &c.payload {
+            PayloadContent::Verbose(a) => (true, Some(a.len())),
+            PayloadContent::NetworkTrace(s) => (true, Some(s.len())),
+            _ => (false, None),
+        };
+        if x.verbose != want_verbose {
+            o.push(("verbose_flag".into(), format!("verbose = {} for {:?}", x.verbose, kind_name(&c.payload))));
+        }
+        if let Some(n) = want_noar {
+            if x.argument_count as usize != n {
+                o.push(("argument_count".into(), format!("argument_count {} for {} arguments", x.argument_count, n)));
+            }
+        }
+    }
+    if m.header.has_extended_header != c.extended_header_info.is_some() {
+        o.push(("ueh_flag".into(), "has_extended_header does not match the configuration".into()));
+    }
+    // parses back to an equal message
+    match parse_owned(&bytes.0, None, storage) {
+        Some(Ok((0, ParsedMessage::Item(m2)))) if msg_toks(&m2) == msg_toks(m) => {}
+        other => o.push(("parses_back".into(), format!("built message does not parse back: {}", short_res(&other)))),
+    }
+    // adding a storage header only prepends 16 bytes with the given time and the ECU id
+    if let Some(t) = ts {
+        let base = Message::new(c.clone(), sh.clone());
+        let base = Message { storage_header: None, ..base };
+        if let Ok(plain) = catch_unwind(AssertUnwindSafe(|| base.as_bytes())) {
+            let mut want = vec![0x44, 0x4c, 0x54, 0x01];
+            want.extend_from_slice(&t.seconds.to_le_bytes());
+            want.extend_from_slice(&t.microseconds.to_le_bytes());
+            let id = c.ecu_id.clone().unwrap_or_else(|| "ECU".to_string());
+            let mut idb = id.as_bytes().to_vec();
+            while idb.len() < 4 {
+                idb.push(0);
+            }
+            want.extend_from_slice(&idb);
+            want.extend_from_slice(&plain);
+            if bytes.0 != want {
+                o.push(("storage_header_prepended".into(), "add_storage_header did not just prepend DLT\\x01 + time + ecu id".into()));
+            }
+        }
+    }
+}
+
+fn kind_name(p: &PayloadContent) -> &'static str {
+    match p {
+        PayloadContent::Verbose(_) => "Verbose",
+        PayloadContent::NonVerbose(..) => "NonVerbose",
+        PayloadContent::ControlMsg(..) => "ControlMsg",
+        PayloadContent::NetworkTrace(_) => "NetworkTrace",
+    }
+}
+
+// ------------------------------------------------------------------ C09
+fn severity(l: &LogLevel) -> Option<u8> {
+    match l {
+        LogLevel::Fatal => Some(1),
+        LogLevel::Error => Some(2),
+        LogLevel::Warn => Some(3),
+        LogLevel::Info => Some(4),
+        LogLevel::Debug => Some(5),
+        LogLevel::Verbose => Some(6),
+        LogLevel::Invalid(_) => None,
+    }
+}
+
+/// the drop rule as the property states it
+pub fn spec_dropped(m: &Message, f: &DltFilterConfig) -> bool {
+    let distinct = |v: &Vec<String>| {
+        let mut s: Vec<&String> = v.iter().collect();
+        s.sort();
+        s.dedup();
+        s.len() as i64
+    };
+    match &m.extended_header {
+        Some(x) => {
+            let min = f.min_log_level.filter(|l| (1..=6).contains(l));
+            let level_drop = match (&x.message_type, min) {
+                (MessageType::Log(l), Some(min)) => match severity(l) {
+                    Some(s) => s > min,
+                    None => false,
+                },
+                _ => false,
+            };
+            let app_drop = f.app_ids.as_ref().map(|s| !s.contains(&x.application_id)).unwrap_or(false);
+            let ctx_drop = f.context_ids.as_ref().map(|s| !s.contains(&x.context_id)).unwrap_or(false);
+            let ecu_drop = match (&f.ecu_ids, &m.header.ecu_id) {
+                (Some(s), Some(id)) => !s.contains(id),
+                _ => false,
+            };
+            level_drop || app_drop || ctx_drop || ecu_drop
+        }
+        None => {
+            f.app_ids.as_ref().map(|s| f.app_id_count > distinct(s)).unwrap_or(false)
+                || f.context_ids.as_ref().map(|s| f.context_id_count > distinct(s)).unwrap_or(false)
+        }
+    }
+}
+
+pub fn filter_oracle(
+    m: &Message,
+    f: &DltFilterConfig,
+    buf: &[u8],
+    suffix_len: usize,
+    sh: bool,
+    res: &Option<Result<(usize, ParsedMessage), DltParseError>>,
+    o: &mut Fails,
+) {
+    let unfiltered = parse_owned(buf, None, sh);
+    let dropped = spec_dropped(m, f);
+    match res {
+        Some(Ok((rl, ParsedMessage::FilteredOut(n)))) => {
+            if !dropped {
+                o.push(("dropped_iff_criteria_fail".into(), "message dropped although it meets every criterion".into()));
+            }
+            if *n != m.header.payload_length as usize {
+                o.push(("marker_payload_length".into(), format!("FilteredOut({}) for payload length {}", n, m.header.payload_length)));
+            }
+            if *rl != suffix_len {
+                o.push(("same_remainder".into(), format!("rest {} expected {}", rl, suffix_len)));
+            }
+        }
+        Some(Ok((rl, ParsedMessage::Item(m2)))) => {
+            if dropped {
+                o.push(("dropped_iff_criteria_fail".into(), "message kept although it fails a criterion".into()));
+            }
+            match &unfiltered {
+                Some(Ok((rl0, ParsedMessage::Item(m0)))) if msg_toks(m0) == msg_toks(m2) && rl0 == rl => {}
+                other => o.push(("kept_identical".into(), format!("unfiltered parse gives {}", short_res(other)))),
+            }
+        }
+        other => o.push(("filter_result".into(), format!("unexpected result {}", short_res(other)))),
+    }
+}
